@@ -260,16 +260,15 @@ fn process_request_obj(request: &Request, dbs: &Arc<Databases>, client: &mut Cli
                                 if let Some(previous_db) =
                                     db_name_state.as_ref().and_then(|p| dbs_map.get(p))
                                 {
-                                    previous_db.dec_connections();
-                                    set_connection_counter(previous_db, &dbs);
+                                    update_connection_counter(previous_db, &dbs, false);
                                 }
                                 let _ = std::mem::replace(&mut *db_name_state, Some(name.clone()));
                                 let _ = std::mem::replace(
                                     &mut *user_name_state,
                                     Some(user_name.clone()),
                                 );
-                                db.inc_connections(); //Increment the number of connections
-                                set_connection_counter(db, &dbs);
+                                //Increment the number of connections
+                                update_connection_counter(db, &dbs, true);
                                 Response::Ok {}
                             } else {
                                 Response::Error {
@@ -285,12 +284,11 @@ fn process_request_obj(request: &Request, dbs: &Arc<Databases>, client: &mut Cli
                                 if let Some(previous_db) =
                                     db_name_state.as_ref().and_then(|p| dbs_map.get(p))
                                 {
-                                    previous_db.dec_connections();
-                                    set_connection_counter(previous_db, &dbs);
+                                    update_connection_counter(previous_db, &dbs, false);
                                 }
                                 let _ = std::mem::replace(&mut *db_name_state, Some(name.clone()));
-                                db.inc_connections(); //Increment the number of connections
-                                set_connection_counter(db, &dbs);
+                                //Increment the number of connections
+                                update_connection_counter(db, &dbs, true);
                                 Response::Ok {}
                             } else {
                                 Response::Error {
